@@ -12,7 +12,8 @@ func init() {
 	// {"k":"total","src":[bytes]} -> parse.Parse, Env.Parse and Env.Execute (core and Twig environments) all return
 	handlers["total"] = func(raw json.RawMessage) (interface{}, error) {
 		var c struct {
-			Src Bytes `json:"src"`
+			Src    Bytes `json:"src"`
+			NoExec bool  `json:"noexec"` // parse only (structured sources may recurse without bound when executed: outside C01 and C02)
 		}
 		if err := json.Unmarshal(raw, &c); err != nil {
 			return nil, err
@@ -31,6 +32,9 @@ func init() {
 		rec.register(env, false)
 		_, perr := env.Parse("t")
 		obs["envparse_ok"] = perr == nil
+		if c.NoExec {
+			return obs, nil
+		}
 		xerr := env.Execute("t", rec, map[string]stick.Value{"x": "X", "a": true, "s": []stick.Value{1.0, 2.0}})
 		obs["exec_ok"] = xerr == nil
 		if xerr != nil {
